@@ -20,6 +20,7 @@ pub fn prop() -> HistProp {
     gc.weights.push((K::Tick, 4));
     gc.tiny_free_pct = 25;
     gc.access_date = vec![false, true];
+    gc.populate_pct = 10;
     HistProp {
         id: "C04",
         level: "exploration",
